@@ -197,9 +197,13 @@ impl EventGen for Container {
 
                 if self.0.name == "defs" || self.0.name == "symbol" {
                     bbox = None;
-                } else if let ("svg" | "foreignObject", Some(own_bbox)) =
-                    (self.0.name.as_str(), new_el.bbox()?)
-                {
+                } else if let (true, "svg" | "foreignObject", Some(own_bbox)) = (
+                    // (not the document's own root element, whose width / height
+                    // give the size of the image rather than a place within it)
+                    context.is_nested(),
+                    self.0.name.as_str(),
+                    new_el.bbox()?,
+                ) {
                     // these establish their own viewport: their extent is given by their
                     // x / y / width / height rather than by what they contain.
                     bbox = Some(own_bbox);
